@@ -365,6 +365,12 @@ def check_c01(exe, tier, seed, verdict):
     evals += len(cs)
     # project and config name both NULL: refused, not crash
     n += check_null_args(exe, verdict)
+    # layered reads over trees with RANDOM conventional contents (the trees above carry contents by identity):
+    # predicted by the root specification's concrete layered read (Econf!ReadDirsResult)
+    from . import p_econf
+    nmix = 150 if tier == "quick" else 3000
+    n += p_econf.run_mixed(exe, random.Random(seed + 1), nmix, verdict, "C01")
+    evals += nmix
     cov = {"states": states, "transitions": states, "traces_validated_against_impl": n,
            "evaluations": evals, "distinct_nontrivial": nn,
            "rule": "TLC enumerates every tree: 3 layers x main {absent,regular,empty,/dev/null} x every subset of %d suffix-carrying drop-in names per layer (%d trees, all replayed through econf_readConfigWithCallback with ROOT_PREFIX) + whole name pool (dot file, names without the suffix, name not longer than the suffix) with <= %d drop-ins x %d content-shape pairs (%d trees) + parameter shapes (suffix with dot, project NULL, CONFIG_DIRS list, econf_set_conf_dirs, PARSING_DIRS with 1/2/4 layers, econf_readDirs, NULL directory, <project>.d without config name, absent suffix, project+name NULL) x covering trees. Compared: return code, unordered (section,key)->value map, callback path sequence. non-trivial = >= 2 files consulted." % (
